@@ -1,27 +1,56 @@
-"""Replay of counter-models against the real code (filled in per function kind; see DESIGN 4.5)."""
+"""Replay of failed obligations against the real code.
+
+A driver (replay/*.py) builds the failing scenario natively on /repo's current working tree and exits 1
+when the violated clause is observed on the real code.  Where no driver exists (or it does not reproduce)
+the violation is still reported, marked no-failing-input-found, with the solver's model attached."""
+import importlib.util
 import json
 import os
+import re
 import subprocess
 import sys
 
 ROOT = os.path.dirname(os.path.dirname(os.path.abspath(__file__)))
+REPO_SRC = os.environ.get("PYVC_REPO_SRC", "/repo/src")
+
+
+def _drivers():
+    spec = importlib.util.spec_from_file_location("replay_index", os.path.join(ROOT, "replay", "index.py"))
+    m = importlib.util.module_from_spec(spec)
+    spec.loader.exec_module(m)
+    return m.DRIVERS
+
+
+def run_driver(script, extra_env=None):
+    env = dict(os.environ, PYTHONPATH=REPO_SRC)
+    env.update(extra_env or {})
+    p = subprocess.run(["/venv/bin/python", os.path.join(ROOT, "replay", script)], capture_output=True, text=True,
+                       timeout=180, env=env, cwd=ROOT)
+    return p.returncode, (p.stdout[-3000:] + p.stderr[-1500:])
 
 
 def try_replay(name, key, failure, G):
-    """Return {'reproduced': True|False|None, 'note': str, ...}.  None = no concrete input could be built."""
-    return {"reproduced": None, "note": "no replay driver for this obligation kind"}
+    for pat, script in _drivers():
+        if re.search(pat, name):
+            try:
+                rc, out = run_driver(script, {"PYVC_MODEL": (failure.get("model") or "")[:20000]})
+            except Exception as e:
+                return {"reproduced": None, "driver": script, "note": "driver error: %s" % e}
+            return {"reproduced": True if rc == 1 else None, "driver": script, "driver_exit": rc, "output": out,
+                    "note": "driver exit 1 = clause violated on the real code"}
+    return {"reproduced": None, "note": "no replay driver for this obligation"}
 
 
 def show_replay(path):
     d = json.load(open(path))
-    print(json.dumps({k: d[k] for k in ("property", "obligation", "function", "detail")}, indent=1))
-    print("model:\n" + (d.get("model") or ""))
+    print(json.dumps({k: d.get(k) for k in ("property", "obligation", "function", "detail")}, indent=1))
+    print("solver model (excerpt):\n" + (d.get("model") or "")[:3000])
     rep = d.get("replay") or {}
-    print("replay:", json.dumps(rep, indent=1)[:4000])
-    script = rep.get("script")
-    if script:
-        r = subprocess.run(["/venv/bin/python", "-c", script], capture_output=True, text=True, timeout=120,
-                           env=dict(os.environ, PYTHONPATH="/repo/src"))
-        print(r.stdout[-3000:], r.stderr[-3000:])
-        return 1 if r.returncode != 0 else 0
+    drv = rep.get("driver")
+    if drv:
+        rc, out = run_driver(drv)
+        print(out)
+        print("driver exit", rc)
+        return 1 if rc == 1 else 0
+    print("no driver: obligation failure only (no-failing-input-found)")
     return 1
